@@ -337,7 +337,65 @@ def triage_lookup(ctx, s, key3):
     for (f2, k2, t2), inv2 in free:
         if f2 != fname and f2 in mod_funcs and alpha(t2, s.func) == mine:
             return inv2
+    if kind == "unpack":
+        return _unpack_of_element(ctx, s, [(k, v) for k, v in TRIAGE.items() if k not in exact], mod_funcs)
     return None
+
+
+def _unpack_of_element(ctx, s, free, mod_funcs):
+    """5. ``a, b = X[i]`` replacing the triaged element reads ``X[i][0]``, ``X[i][1]`` of the same module: accepted under
+    their invariant when every element ever stored into the list X (followed through one parameter hop) is an
+    n-element display, so that the exact-arity demand of the unpack adds nothing to what the subscripts needed."""
+    st = s.node
+    if isinstance(st, (ast.Tuple, ast.List)):
+        st = next((x for x in own_nodes(s.func.node) if isinstance(x, ast.Assign) and any(t is s.node for t in x.targets)), st)
+    if not (isinstance(st, ast.Assign) and len(st.targets) == 1 and isinstance(st.targets[0], (ast.Tuple, ast.List))
+            and isinstance(st.value, ast.Subscript) and isinstance(st.value.value, ast.Name)):
+        return None
+    n = len(st.targets[0].elts)
+    if any(isinstance(e, ast.Starred) for e in st.targets[0].elts):
+        return None
+    invs = {}
+    for (f2, k2, t2), inv2 in free:
+        if k2 == "subscript" and f2 in mod_funcs:
+            m = _re.fullmatch(r"\w+\[\w+\]\[(\d+)\]", t2.strip())
+            if m:
+                invs.setdefault(inv2, set()).add(int(m.group(1)))
+    inv = [i for i, ks in invs.items() if ks >= set(range(n))]
+    if len(inv) != 1:
+        return None
+    name = st.value.value.id
+    holders = []          # (function, local variable) pairs that may be the list X
+    if name in s.func.params:
+        pos = s.func.posparams.index(name) if name in s.func.posparams else None
+        for g in [f for f in ctx.db.funcs.values() if f.module is s.func.module]:
+            for site in ctx.cg.sites(g):
+                if s.func in site.callees and isinstance(site.node, ast.Call):
+                    arg = None
+                    if pos is not None and pos < len(site.node.args):
+                        arg = site.node.args[pos]
+                    for kw in site.node.keywords:
+                        if kw.arg == name:
+                            arg = kw.value
+                    if not isinstance(arg, ast.Name):
+                        return None
+                    holders.append((g, arg.id))
+    else:
+        holders.append((s.func, name))
+    if not holders:
+        return None
+    for g, v in holders:
+        if v in g.params:
+            return None
+        stores = [x for x in own_nodes(g.node) if isinstance(x, ast.Assign) and isinstance(x.targets[0], ast.Subscript)
+                  and isinstance(x.targets[0].value, ast.Name) and x.targets[0].value.id == v]
+        if not stores:
+            return None
+        for x in stores:
+            if not (isinstance(x.value, (ast.List, ast.Tuple)) and len(x.value.elts) == n
+                    and not any(isinstance(e, ast.Starred) for e in x.value.elts)):
+                return None
+    return inv[0]
 
 
 def site_key(s, occ):
